@@ -366,6 +366,20 @@ def run_r2(case, ctx):
                 ctx.violation("C18/r2/differs-from-r2_score/stateful-pair", "tr learns a scaling on the targets that "
                               "inv_tr applies to the predictions: got %r, r2_score(f(y), g(p)) = %r" % (got, exp),
                               n=n, used_before=used_before)
+    # the SAME callable object on both sides, and one that looks at the whole vector (scaling by the maximum, centring,
+    # ranks): f(y) and f(p) are two calls
+    for fname, f in (("scale-by-max", lambda v: v / numpy.max(v, axis=0)), ("centre", lambda v: v - numpy.mean(v, axis=0)),
+                     ("ranks", lambda v: numpy.argsort(numpy.argsort(v, axis=0), axis=0).astype(float))):
+        try:
+            got = r2_score_comparable(y, p, sample_weight=w, multioutput=mo, tr=f, inv_tr=f)
+            exp = r2_score(f(y), f(p), sample_weight=w, multioutput=mo)
+        except Exception as e:
+            ctx.violation("C18/r2/raised/%s/same-callable" % type(e).__name__, str(e)[:120], function=fname)
+            continue
+        ctx.hit("r2.same_callable_both_sides")
+        if not numpy.allclose(got, exp, rtol=1e-12, atol=1e-12):
+            ctx.violation("C18/r2/differs-from-r2_score/same-callable-both-sides", "tr and inv_tr are the same callable (%s): "
+                          "%r, r2_score(f(y), f(p)) = %r" % (fname, got, exp), n=n, multi=multi)
     # targets / predictions held in pandas containers, with transformations written for them (Series.std has ddof=1, a
     # frame's sum is per column, rank and clip are Series methods): f and g receive what the caller gave
     import pandas
